@@ -5,8 +5,9 @@
 import FP.Model.Conv
 import FP.Lemmas.Text
 import FP.Lemmas.Conv
+import FP.Lemmas.DecText
 namespace FP.Props.C13
-open FP FP.Model FP.Model.Text FP.Model.Conv FP.Lemmas.Text FP.Lemmas.Conv FP.Gen.Layouts
+open FP FP.Model FP.Model.Text FP.Model.Conv FP.Lemmas.Text FP.Lemmas.Conv FP.Lemmas.DecText FP.Gen.Layouts
 
 theorem toString_str (x : CV) (hx : x ≠ .complex) : ∃ s, toStringV x = .ok (some (.str s)) := by
   cases x <;> simp_all [toStringV]
@@ -192,5 +193,36 @@ example : ¬ Expressible (goLayout "2006-01-02T15:04:05.000Z07:00".toList) ⟨20
   intro h
   have := h.1 (.frac0 3) (by simp [goLayout]) (.nanos, (123456000 : Int) / pow10 (9 - 3) * pow10 (9 - 3)) (by simp [assign])
   simp [Wall.get, pow10] at this
+
+/-! ### Decimal and Quantity texts -/
+
+/-- a Decimal rendered by toString converts back to a Decimal of the same value: for every
+    coefficient and every exponent the decimal library can hold -/
+theorem decimal_roundtrip (d : Dec) (hexp : -2147483648 ≤ d.exp ∧ d.exp ≤ 2147483647) :
+    toStringV (.dec d) = .ok (some (.str (renderDec d))) ∧
+    ∃ d', toDecimalV (.str (renderDec d)) = .ok (some (.dec d')) ∧ Dec.eq d' d = true := by
+  refine ⟨rfl, ?_⟩
+  obtain ⟨d', hp, he⟩ := parseDecGo_renderDec d hexp
+  exact ⟨d', by simp [toDecimalV, matchesDecimal_render d, hp], he⟩
+
+/-- a Quantity whose unit is a plain word (the calendar-duration keywords are of this form) round
+    trips through its string form.  For UCUM units the string form does not re-parse — the recorded
+    finding C13-quantity-string-form, pinned by TestToString — so this is the *partial* statement -/
+theorem quantity_word_roundtrip_partial (d : Dec) (hexp : -2147483648 ≤ d.exp ∧ d.exp ≤ 2147483647)
+    (a : Char) (t : S) (hu : (a :: t).all isAlpha = true) :
+    toStringV (.quantity d (a :: t)) = .ok (some (.str (renderDec d ++ ' ' :: a :: t))) ∧
+    ∃ d', toQuantityV (.str (renderDec d ++ ' ' :: a :: t)) = .ok (some (.quantity d' (a :: t))) ∧ Dec.eq d' d = true := by
+  refine ⟨by simp [toStringV, renderQuantity], ?_⟩
+  obtain ⟨d', hp, he⟩ := parseDecGo_renderDec d hexp
+  refine ⟨d', ?_, he⟩
+  simp only [toQuantityV, matchQuantity_render_word d a t hu, indexWhere_space_render]
+  simp [List.take_left', hp, trim_quotes_word _ hu]
+
+/-- the finding itself, on the model: a UCUM unit written bare is not read back -/
+theorem quantity_ucum_counterexample :
+    toStringV (.quantity ⟨5, 0⟩ "mg/dL".toList) = .ok (some (.str "5 mg/dL".toList)) ∧
+    toQuantityV (.str "5 mg/dL".toList) = .ok none := by
+  refine ⟨?_, by decide⟩
+  simp [toStringV, renderQuantity, renderDec, renderInt, natDigits]; decide
 
 end FP.Props.C13
